@@ -19,13 +19,11 @@ func H_LNode() {
 	vAssume(av>>56 == 0 && bv>>56 == 0 && av != bv)
 	a := (*Node)(unsafe.Pointer(av))
 	b := (*Node)(unsafe.Pointer(bv))
-	// arbitrary but legal initial cell contents at every level
+	// arbitrary but legal initial cell contents at every level: a or b per level, chosen by a symbolic bit without
+	// forking (the pointer value is an if-then-else term), so that all 2^(level+1) contents are one path
 	for i := 0; i <= lvl; i++ {
-		if vBool("initA", i) {
-			n.setNext(i, a, false)
-		} else {
-			n.setNext(i, b, false)
-		}
+		pv := uintptr(vIteInt(vBool("initA", i), int(av), int(bv)))
+		n.setNext(i, (*Node)(unsafe.Pointer(pv)), false)
 	}
 	l := vRange("target", 0, 0, lvl)
 	// remember other levels
